@@ -173,6 +173,11 @@ SLOW = set(["%s2d_array" % e for e in ENC] + ["%s2f_array" % e for e in ENC] +
            ["d2%s_array" % e for e in ("bes", "les", "bet", "let", "bei", "lei")])
 
 
+# full inductive loop units that do not finish within an hour on this machine (measured in a thorough-tier pass:
+# lei2d_array 2440+ s, bei2d_array > 3600 s): for these the element rule (.elem) and the frame unit (.frame) stand alone
+NO_FULL = set(["bei2d_array", "lei2d_array"])
+
+
 def units():
     U = []
     # integer readers
@@ -190,7 +195,8 @@ def units():
         for enc in ENC:
             nm = "%s2%s_array" % (enc, host)
             slow = nm in SLOW
-            U.append(kernel_unit(nm, CT[enc], CT[host], "scd",
+            if nm not in NO_FULL:
+              U.append(kernel_unit(nm, CT[enc], CT[host], "scd",
                                  fread_rule(enc, host), ["C02"],
                                  extra_params=", %s normfact" % CT[host],
                                  extra_req="__CPROVER_requires (normfact > 0 && normfact <= 1)", backend="kissat",
@@ -224,7 +230,9 @@ def units():
 
 
 NOT_DECIDED = {
-    "C02": ["SSE2 build variant of psf_lrint/psf_lrintf (verified with -U__SSE2__; _mm_cvtss_si32 trusted to equal lrintf)",
+    "C02": ["bei2d_array / lei2d_array: the inductive loop unit with the IEEE term does not finish within an hour; decided by the single-element "
+            "rule (.elem) plus the frame unit (.frame) only",
+            "SSE2 build variant of psf_lrint/psf_lrintf (verified with -U__SSE2__; _mm_cvtss_si32 trusted to equal lrintf)",
             "independent numeric error bound of float scaling: the float/double kernel obligations establish which IEEE "
             "operations, constants, rounding primitive, clip order and byte packing are applied (structural identity), "
             "not a separately derived arithmetic bound"],
